@@ -1557,3 +1557,784 @@ Example realtime_order_fixed_run :
   let s := run_sched (init_scripts true 2 1 rt_scripts) (rt_sched ++ repeat 3%nat 32) in
   applied s = [3; 1; 5] /\ trace s = [EInv 1; EInv 3; ERet 1; EInv 5; ERet 3; EApp 3; EApp 1; EApp 5; ERet 5].
 Proof. vm_compute. auto. Qed.
+
+(* ================================================================ layer D: the wake protocol *)
+
+Definition wsetW (p : pcT) : bool :=
+  match p with P302 | P311 | P303 | P121 | P122 | P123 | P124 | P125 | P126 | P312 | P313 => true | _ => false end.
+Definition wsetN (p : pcT) : bool :=
+  match p with P302 | P311 | P303 | P304 | P305 => true | _ => false end.
+(* token holders that will look at the tail cell again before giving the token back *)
+Definition cpcs (p : pcT) : bool :=
+  match p with P121 | P122 | P123 | P124 | P125 | P126 | P312 | P313 | P333 => true | _ => false end.
+
+Definition ready (s : gstate) : Prop := cseq (cell_at s (gtail s)) = gtail s + 1.
+
+Definition ex_thr (s : gstate) (Q : thread -> Prop) : Prop := exists tid th, thr s tid th /\ Q th.
+
+Definition QW (th : thread) : Prop := cur th = Some OWorker /\ wsetW (pc th) = true.
+Definition QN (th : thread) : Prop := cur th = Some OWorker /\ wsetN (pc th) = true.
+Definition QP (g : Z) (th : thread) : Prop := pc th = P106 /\ epos th = g.
+Definition QC (th : thread) : Prop := cpcs (pc th) = true.
+
+Definition Wdisj (s : gstate) : Prop := wakeTok s = true \/ ex_thr s QW.
+Definition Ndisj (s : gstate) : Prop :=
+  wakeTok s = true \/ ex_thr s QN \/ ex_thr s (QP (gtail s)) \/ ex_thr s QC.
+
+Record invD (s : gstate) : Prop := {
+  d_B : 1 <= gB s;
+  d_ws : wakeState s = 0 \/ wakeState s = 1;
+  d_closing : forall tid th, thr s tid th -> cur th = Some OWorker -> wclosing th = true -> closeCh s = true;
+  d_308 : forall tid th, thr s tid th -> pc th = P308 -> closeCh s = true;
+  d_tgt : forall tid th b, thr s tid th -> cur th = Some (OSet b) -> holder (pc th) = true -> starget th <= head s;
+  d_333 : forall tid th, thr s tid th -> pc th = P333 -> tail s < starget th;
+  d_W : wakeState s = 1 -> closeCh s = false -> Wdisj s;
+  d_N : ready s -> closeCh s = false -> Ndisj s
+}.
+
+Lemma ex_thr_other s s' tid th1 (Q : thread -> Prop) t0 th0 :
+  threads s' = upd (threads s) tid th1 -> t0 <> tid -> thr s t0 th0 -> Q th0 -> ex_thr s' Q.
+Proof. intros Hthr N H HQ. exists t0, th0. split; auto. apply (thr_upd_other s s' tid th1); auto. Qed.
+
+Lemma ex_thr_self s s' tid th th1 (Q : thread -> Prop) :
+  threads s' = upd (threads s) tid th1 -> thr s tid th -> Q th1 -> ex_thr s' Q.
+Proof.
+  intros Hthr H HQ. exists tid, th1. split; auto. unfold thr. rewrite Hthr.
+  apply nth_error_upd_eq. eapply nth_error_lt; eauto.
+Qed.
+
+(* a witness survives a step if the stepping thread, when it is the witness, still qualifies *)
+Lemma ex_thr_step s s' tid th th1 (Q : thread -> Prop) :
+  threads s' = upd (threads s) tid th1 -> thr s tid th -> ex_thr s Q -> (Q th -> Q th1) -> ex_thr s' Q.
+Proof.
+  intros Hthr H (t0 & th0 & H0 & HQ) Himp. destruct (Nat.eq_dec t0 tid) as [->|N].
+  - rewrite (thr_det _ _ _ _ H0 H) in HQ. eapply ex_thr_self; eauto.
+  - eapply ex_thr_other; eauto.
+Qed.
+
+(* if the stepping thread is not a witness, witnesses survive *)
+Lemma ex_thr_skip s s' tid th th1 (Q : thread -> Prop) :
+  threads s' = upd (threads s) tid th1 -> thr s tid th -> ex_thr s Q -> ~ Q th -> ex_thr s' Q.
+Proof. intros Hthr H Hex Hn. eapply ex_thr_step; eauto. tauto. Qed.
+
+Lemma wsetW_split p : wsetW p = true -> wsetN p = true \/ cpcs p = true.
+Proof. destruct p; cbn; auto; discriminate. Qed.
+
+Lemma holder125 s : invA s -> invB s -> tail s <> gtail s -> ex_thr s (fun th => pc th = P125).
+Proof.
+  intros (HT & HD & _) HB Hne.
+  destruct (drainMu s) as [t|] eqn:E; [|exfalso; apply Hne; apply (b_notok _ HB E)].
+  pose proof (HD t eq_refl) as Hlt.
+  destruct (nth_error (threads s) t) as [th|] eqn:Et; [|apply nth_error_None in Et; lia].
+  pose proof (proj1 (a_tok _ _ _ (HT _ _ Et)) E) as Hh.
+  pose proof (t_tail _ _ (b_thr _ HB _ _ Et) Hh) as Htl.
+  exists t, th. split; auto. destruct (pc th); auto; lia.
+Qed.
+
+Lemma holder125_C s : invA s -> invB s -> tail s <> gtail s -> ex_thr s QC.
+Proof.
+  intros HA HB Hne. destruct (holder125 s HA HB Hne) as (t & th & H & Hp).
+  exists t, th. split; auto. unfold QC. rewrite Hp. reflexivity.
+Qed.
+
+(* from Wdisj to Ndisj (the stepping thread is not a W witness) *)
+Lemma W_to_N s : Wdisj s -> Ndisj s.
+Proof.
+  intros [H|(t & th & H & Hc & Hp)]; [left; auto|].
+  destruct (wsetW_split _ Hp) as [X|X].
+  - right. left. exists t, th. split; auto. split; auto.
+  - right. right. right. exists t, th. split; auto.
+Qed.
+
+Lemma d_closing_frame s s' tid th th1 :
+  invD s -> thr s tid th -> threads s' = upd (threads s) tid th1 ->
+  (closeCh s = true -> closeCh s' = true) ->
+  (cur th1 = Some OWorker -> wclosing th1 = true -> closeCh s' = true) ->
+  forall t th', thr s' t th' -> cur th' = Some OWorker -> wclosing th' = true -> closeCh s' = true.
+Proof.
+  intros HD Hth Hthr Hc H1 t th' H Hcu Hw. destruct (Nat.eq_dec t tid) as [->|N].
+  - rewrite (thr_upd_same _ _ _ _ _ _ Hthr Hth H) in *. auto.
+  - apply (thr_upd_other s s' tid th1) in H; auto. apply Hc. eapply (d_closing _ HD); eauto.
+Qed.
+
+Lemma d_308_frame s s' tid th th1 :
+  invD s -> thr s tid th -> threads s' = upd (threads s) tid th1 ->
+  (closeCh s = true -> closeCh s' = true) ->
+  (pc th1 = P308 -> closeCh s' = true) ->
+  forall t th', thr s' t th' -> pc th' = P308 -> closeCh s' = true.
+Proof.
+  intros HD Hth Hthr Hc H1 t th' H Hp. destruct (Nat.eq_dec t tid) as [->|N].
+  - rewrite (thr_upd_same _ _ _ _ _ _ Hthr Hth H) in *. auto.
+  - apply (thr_upd_other s s' tid th1) in H; auto. apply Hc. eapply (d_308 _ HD); eauto.
+Qed.
+
+Lemma d_tgt_frame s s' tid th th1 :
+  invD s -> thr s tid th -> threads s' = upd (threads s) tid th1 -> head s <= head s' ->
+  (forall b, cur th1 = Some (OSet b) -> holder (pc th1) = true -> starget th1 <= head s') ->
+  forall t th' b, thr s' t th' -> cur th' = Some (OSet b) -> holder (pc th') = true -> starget th' <= head s'.
+Proof.
+  intros HD Hth Hthr Hh H1 t th' b H Hc Hp. destruct (Nat.eq_dec t tid) as [->|N].
+  - rewrite (thr_upd_same _ _ _ _ _ _ Hthr Hth H) in *. eauto.
+  - apply (thr_upd_other s s' tid th1) in H; auto. pose proof (d_tgt _ HD _ _ _ H Hc Hp). lia.
+Qed.
+
+Lemma d_333_frame s s' tid th th1 :
+  invA s -> invD s -> thr s tid th -> threads s' = upd (threads s) tid th1 ->
+  (tail s' = tail s \/ holder (pc th) = true) ->
+  (pc th1 = P333 -> tail s' < starget th1) ->
+  forall t th', thr s' t th' -> pc th' = P333 -> tail s' < starget th'.
+Proof.
+  intros HA HD Hth Hthr Ht H1 t th' H Hp. destruct (Nat.eq_dec t tid) as [->|N].
+  - rewrite (thr_upd_same _ _ _ _ _ _ Hthr Hth H) in *. auto.
+  - apply (thr_upd_other s s' tid th1) in H; auto. destruct Ht as [Ht|Ht].
+    + rewrite Ht. eapply (d_333 _ HD); eauto.
+    + exfalso. apply N. eapply (holder_unique s t tid th' th); eauto. rewrite Hp. reflexivity.
+Qed.
+
+Lemma W_frame s s' tid th th1 :
+  threads s' = upd (threads s) tid th1 -> thr s tid th ->
+  (wakeTok s = true -> wakeTok s' = true) -> (QW th -> QW th1) -> Wdisj s -> Wdisj s'.
+Proof.
+  intros Hthr Hth Ht Hq [H|H]; [left; auto|right]. eapply ex_thr_step; eauto.
+Qed.
+
+Lemma N_step s s' tid th th1 :
+  threads s' = upd (threads s) tid th1 -> thr s tid th -> gtail s' = gtail s ->
+  (wakeTok s = true -> Ndisj s') -> (QN th -> Ndisj s') -> (QP (gtail s) th -> Ndisj s') ->
+  (QC th -> Ndisj s') -> Ndisj s -> Ndisj s'.
+Proof.
+  intros Hthr Hth Hg H1 H2 H3 H4 [H|[(t0 & th0 & H0 & HQ)|[(t0 & th0 & H0 & HQ)|(t0 & th0 & H0 & HQ)]]]; auto.
+  - destruct (Nat.eq_dec t0 tid) as [->|N]; [rewrite (thr_det _ _ _ _ H0 Hth) in HQ; auto|].
+    right. left. eapply ex_thr_other; eauto.
+  - destruct (Nat.eq_dec t0 tid) as [->|N]; [rewrite (thr_det _ _ _ _ H0 Hth) in HQ; auto|].
+    right. right. left. rewrite Hg. eapply ex_thr_other; eauto.
+  - destruct (Nat.eq_dec t0 tid) as [->|N]; [rewrite (thr_det _ _ _ _ H0 Hth) in HQ; auto|].
+    right. right. right. eapply ex_thr_other; eauto.
+Qed.
+
+Lemma W_to_N_step s s' tid th th1 :
+  threads s' = upd (threads s) tid th1 -> thr s tid th -> ~ QW th ->
+  (wakeTok s = true -> wakeTok s' = true) -> Wdisj s -> Ndisj s'.
+Proof.
+  intros Hthr Hth Hn Ht [H|(t0 & th0 & H0 & Hc & Hp)]; [left; auto|].
+  destruct (Nat.eq_dec t0 tid) as [->|N].
+  { exfalso. apply Hn. rewrite (thr_det _ _ _ _ Hth H0). split; auto. }
+  destruct (wsetW_split _ Hp) as [X|X].
+  - right. left. eapply (ex_thr_other s s' tid th1 QN); eauto. split; auto.
+  - right. right. right. eapply (ex_thr_other s s' tid th1 QC); eauto.
+Qed.
+
+Lemma C_lift s s' tid th th1 :
+  threads s' = upd (threads s) tid th1 -> thr s tid th -> cpcs (pc th) = false -> ex_thr s QC -> Ndisj s'.
+Proof.
+  intros Hthr Hth Hn H. right. right. right. eapply ex_thr_skip; eauto.
+  unfold QC. rewrite Hn. discriminate.
+Qed.
+
+Lemma ready_same_seq s s' e x :
+  gn s' = gn s -> gtail s' = gtail s -> Z.of_nat (length (ring s)) = gn s -> 0 < gn s ->
+  ring s' = upd (ring s) (idx s e) (mkCell (cseq (cell_at s e)) x) -> ready s' -> ready s.
+Proof.
+  unfold ready, cell_at, idx. intros Hn Hg Hl H0 Hr. rewrite Hg, Hn, Hr.
+  destruct (Nat.eq_dec (Z.to_nat (e mod gn s)) (Z.to_nat (gtail s mod gn s))) as [E|E].
+  - rewrite <- E. rewrite nth_upd_eq; auto.
+    pose proof (Z.mod_pos_bound e (gn s) H0). lia.
+  - rewrite nth_upd_ne; auto.
+Qed.
+
+Lemma ready_other_cell s s' e c :
+  invB s -> gn s' = gn s -> gtail s' = gtail s -> ring s' = upd (ring s) (idx s e) c ->
+  gtail s <= e < head s -> e <> gtail s -> ready s' -> ready s.
+Proof.
+  intros HB Hn Hg Hr He Hne. unfold ready. rewrite Hg.
+  rewrite (cell_at_upd_ne s s' e (gtail s) c (gtail s)); auto.
+  - pose proof (b_n _ HB). lia.
+  - pose proof (b_hi _ HB). lia.
+  - pose proof (b_n _ HB). lia.
+Qed.
+
+Lemma invD_init f n B scripts : 1 <= B -> invD (init_scripts f n B scripts).
+Proof.
+  intros HB. constructor; cbn; auto; try discriminate.
+  - intros tid th H. unfold thr in H; cbn in H. apply nth_error_map_thread in H as (l & _ & ->). discriminate.
+  - intros tid th H. unfold thr in H; cbn in H. apply nth_error_map_thread in H as (l & _ & ->). discriminate.
+  - intros tid th b H. unfold thr in H; cbn in H. apply nth_error_map_thread in H as (l & _ & ->). discriminate.
+  - intros tid th H. unfold thr in H; cbn in H. apply nth_error_map_thread in H as (l & _ & ->). discriminate.
+  - unfold ready, cell_at, idx. cbn [gtail gn ring init_scripts init_state]. rewrite Zmod_0_l.
+    unfold init_ring. destruct (Z.to_nat n); cbn; discriminate.
+Qed.
+
+Lemma invD_step c s tid s' o :
+  invA s -> invB s -> invD s -> lstepc c s tid = Some (s', o) -> invD s'.
+Proof.
+  intros HA HB HD Hs. apply lstepc_inv in Hs as (th & s1 & th1 & Hth & Hst & ->).
+  pose proof (proj1 HA _ _ Hth) as [Hok Htok _ Hbuf Hwf].
+  pose proof (b_thr _ HB _ _ Hth) as Tth.
+  step_leaves Hst Hok.
+  all: norm_state.
+  all: try (match goal with E : script _ = _ :: _ |- _ => rewrite E in Hwf end).
+  all: try (cbn in Hwf; discriminate Hwf).
+  all: bool_hyps; zb.
+  all: constructor.
+  (* d_B, d_ws *)
+  all: try exact (d_B _ HD).
+  all: try (cbn [wakeState]; first [exact (d_ws _ HD) | left; reflexivity | right; reflexivity]).
+  (* d_closing, d_308 *)
+  all: try (eapply (d_closing_frame _ _ tid th); [exact HD|exact Hth|reflexivity| cbn [closeCh]; auto | ];
+            cbn [cur wclosing closeCh]; rewrite ?Hcur;
+            first [ intros X; discriminate X | intros _ X; discriminate X | reflexivity
+                  | intros _ X; exact (d_closing _ HD _ _ Hth Hcur X)
+                  | intros _ _; exact (d_308 _ HD _ _ Hth Hpc) ]).
+  all: try (eapply (d_308_frame _ _ tid th); [exact HD|exact Hth|reflexivity| cbn [closeCh]; auto | ];
+            cbn [pc closeCh]; first [ intros X; discriminate X | intros _; reflexivity | intros _; assumption ]).
+  (* d_tgt, d_333 *)
+  all: pose proof (t_tail _ _ Tth) as Ytl; pose proof (t_dpos _ _ Tth) as Ydp; rewrite Hpc in Ytl, Ydp; cbn [holder] in Ytl.
+  all: try (match goal with E : gfixed _ && _ = true |- _ => apply andb_true_iff in E; destruct E as [_ E]; apply Z.ltb_lt in E end).
+  all: try (eapply (d_tgt_frame _ _ tid th); [exact HD|exact Hth|reflexivity
+            | first [apply Z.le_refl | cbn [head]; lia] | ];
+            cbn [cur pc starget head holder]; rewrite ?Hcur; intros b0 X Y;
+            first [ discriminate X | discriminate Y | apply Z.le_refl
+                  | injection X as <-; eapply (d_tgt _ HD _ _ _ Hth Hcur); rewrite Hpc; reflexivity ]).
+  all: try (eapply (d_333_frame _ _ tid th); [exact HA|exact HD|exact Hth|reflexivity
+            | first [left; reflexivity | right; rewrite Hpc; reflexivity] | ];
+            cbn [pc tail starget]; intros X; first [discriminate X | lia]).
+  (* d_W *)
+  all: try (lazymatch goal with |- _ -> _ -> Wdisj _ => idtac end;
+    intros Hws Hcl; cbn [wakeState closeCh] in Hws, Hcl;
+    first [ discriminate Hws | discriminate Hcl
+          | left; reflexivity
+          | right; eapply (ex_thr_self _ _ tid th); [reflexivity|exact Hth| split; [exact Hcur | reflexivity]]
+          | exfalso; rewrite (d_closing _ HD _ _ Hth Hcur) in Hcl by assumption; discriminate Hcl
+          | eapply (W_frame _ _ tid th); [reflexivity|exact Hth| cbn [wakeTok]; auto
+              | intros [Qa Qb]; rewrite Hpc in Qb; first [discriminate Qb | rewrite Hcur in Qa; discriminate Qa | split; [exact Qa | reflexivity]]
+              | exact (d_W _ HD Hws Hcl)] ]).
+  (* d_N *)
+  all: lazymatch goal with |- _ -> _ -> Ndisj _ => idtac | _ => fail "unexpected goal" end.
+  all: intros Hr Hcl; cbn [closeCh] in Hcl; try discriminate Hcl.
+  all: try (lazymatch goal with Hp : pc _ = P124 |- _ =>
+              right; right; right; eapply (ex_thr_self _ _ tid th); [reflexivity|exact Hth|reflexivity] end).
+  all: match goal with HBx : invB ?ss |- _ =>
+    lazymatch goal with
+    | Hp : pc _ = P105 |- _ =>
+        destruct (t_own _ _ Tth) as (Oin & _); [rewrite Hpc; reflexivity|];
+        destruct (Z.eq_dec (epos th) (gtail ss)) as [Ee|Ee];
+        [ right; right; left; eapply (ex_thr_self _ _ tid th); [reflexivity|exact Hth|split; [reflexivity|exact Ee]]
+        | assert (Hr0 : ready ss)
+            by (match type of Hr with ready ?S' => eapply (ready_other_cell ss S' (epos th)); [exact HB|reflexivity|reflexivity|reflexivity|exact Oin|exact Ee|exact Hr] end) ]
+    | Hp : pc _ = P104 |- _ =>
+        assert (Hr0 : ready ss)
+          by (match type of Hr with ready ?S' => eapply (ready_same_seq ss S' (epos th)); [reflexivity|reflexivity|exact (b_len _ HB)
+                                                       |pose proof (b_n _ HB); lia|reflexivity|exact Hr] end)
+    | _ => assert (Hr0 : ready ss) by exact Hr
+    end
+  end.
+  all: eapply (N_step _ _ tid th); [reflexivity|exact Hth|reflexivity| | | | |exact (d_N _ HD Hr0 Hcl)].
+  all: match goal with HBx : invB ?ss |- _ =>
+    lazymatch goal with
+    | |- wakeTok _ = true -> _ =>
+        intros Htk;
+        first [ left; exact Htk | left; reflexivity
+              | right; left; eapply (ex_thr_self _ _ tid th); [reflexivity|exact Hth|split; [exact Hcur|reflexivity]] ]
+    | |- QN _ -> _ =>
+        intros [Qa Qb]; rewrite Hpc in Qb;
+        first [ discriminate Qb
+              | right; left; eapply (ex_thr_self _ _ tid th); [reflexivity|exact Hth|split; [exact Hcur|reflexivity]]
+              | right; right; right; eapply (ex_thr_self _ _ tid th); [reflexivity|exact Hth|reflexivity]
+              | (* 304: not ready at tail *)
+                destruct (Z.eq_dec (tail ss) (gtail ss)) as [Et|Et];
+                [ exfalso; unfold ready in Hr0; rewrite <- Et in Hr0; contradiction
+                | eapply (C_lift _ _ tid th); [reflexivity|exact Hth|rewrite Hpc; reflexivity|exact (holder125_C _ HA HB Et)] ]
+              | (* 305: the re-arm CAS failed *)
+                destruct (d_ws _ HD) as [W0|W1]; [contradiction|];
+                eapply (W_to_N_step _ _ tid th); [reflexivity|exact Hth|intros [_ X]; rewrite Hpc in X; discriminate X
+                                                 |cbn [wakeTok]; auto|exact (d_W _ HD W1 Hcl)] ]
+    | |- QP _ _ -> _ =>
+        intros [Qa Qb]; rewrite Hpc in Qa;
+        first [ discriminate Qa
+              | left; reflexivity
+              | match goal with E : _ && _ = false |- _ =>
+                  apply andb_false_iff in E; destruct E as [E|E]; zb;
+                  [ eapply (C_lift _ _ tid th); [reflexivity|exact Hth|rewrite Hpc; reflexivity|];
+                    apply (holder125_C _ HA HB); rewrite <- Qb; exact E
+                  | destruct (d_ws _ HD) as [W0|W1]; [contradiction|];
+                    eapply (W_to_N_step _ _ tid th); [reflexivity|exact Hth|intros [_ X]; rewrite Hpc in X; discriminate X
+                                                     |cbn [wakeTok]; auto|exact (d_W _ HD W1 Hcl)] ]
+                end ]
+    | |- QC _ -> _ =>
+        intros Qc; unfold QC in Qc; rewrite Hpc in Qc;
+        first [ discriminate Qc
+              | right; right; right; eapply (ex_thr_self _ _ tid th); [reflexivity|exact Hth|reflexivity]
+              | right; left; eapply (ex_thr_self _ _ tid th); [reflexivity|exact Hth|split; [exact Hcur|reflexivity]]
+              | exfalso; match goal with E : cseq _ <> _ |- _ => apply E end;
+                rewrite (t_dpos _ _ Tth) by (rewrite Hpc; tauto); exact Hr0
+              | exfalso; match goal with E : max_of _ _ <= 0 |- _ => unfold max_of in E; rewrite Hcur in E end;
+                pose proof (d_B _ HD); lia ]
+    end
+  end.
+Qed.
+
+(* ---- enabledness ---- *)
+Definition always_enabled (p : pcT) : bool :=
+  match p with
+  | P101 | P102 | P103 | P104 | P105 | P106
+  | P121 | P122 | P123 | P124 | P125 | P126
+  | P302 | P303 | P304 | P305 | P308 | P313
+  | P321 | P322 | P323 | P333 | P339 | P351 => true
+  | _ => false
+  end.
+
+Ltac break_goal :=
+  repeat match goal with
+         | |- context [match ?x with _ => _ end] => destruct x
+         end.
+
+Lemma always_enabled_step c s tid th :
+  cur_ok (pc th) (cur th) = true -> always_enabled (pc th) = true -> tstep c s tid th <> None.
+Proof.
+  intros Hok Hen. unfold tstep.
+  destruct (pc th); cbn in Hen; try discriminate Hen;
+    destruct (cur th) as [[]|]; cbn in Hok; try discriminate Hok;
+    cbv beta iota delta [start_op enq_ret cenqueue try_drain drain_start deq_retn deq_ret0 drain_ret
+                         finish_w finish park];
+    cbn [cur set_pc set_cur set_dbuf set_dpos set_epos set_dacks set_wclosing set_starget];
+    break_goal; discriminate.
+Qed.
+
+Lemma lstepc_enabled c s tid th : thr s tid th -> tstep c s tid th <> None -> lstepc c s tid <> None.
+Proof.
+  unfold lstepc, thr. intros -> H. destruct (tstep c s tid th) as [[[? ?] ?]|]; [discriminate|contradiction].
+Qed.
+
+Lemma enabled_mu_free c s tid th :
+  cur_ok (pc th) (cur th) = true -> (pc th = P312 \/ pc th = P332) -> mu s = None -> tstep c s tid th <> None.
+Proof.
+  intros Hok Hp Hm. unfold tstep. destruct Hp as [Hp|Hp]; rewrite Hp in *; rewrite Hm; cbn [is_none].
+  - unfold park. discriminate.
+  - destruct (cur th) as [[]|]; cbn in Hok; try discriminate Hok. unfold finish_w, finish. discriminate.
+Qed.
+
+Lemma enabled_311 c s tid th : pc th = P311 -> drainMu s = None -> tstep c s tid th <> None.
+Proof. intros Hp Hd. unfold tstep. rewrite Hp, Hd. cbn. discriminate. Qed.
+
+Lemma enabled_301 c s tid th :
+  pc th = P301 -> wakeTok s = true -> closeCh s = false -> tstep c s tid th <> None.
+Proof. intros Hp Ht Hc. unfold tstep. rewrite Hp, Ht, Hc. destruct c; cbn; discriminate. Qed.
+
+Definition responsible (s : gstate) (th : thread) : Prop :=
+  cur th = Some OWorker \/ holder (pc th) = true \/ pc th = P351 \/ (pc th = P106 /\ epos th = gtail s).
+
+Definition can_step (c : bool) (s : gstate) : Prop :=
+  exists tid th, thr s tid th /\ responsible s th /\ lstepc c s tid <> None.
+
+(* the token holder can step, or waits for the shard lock whose holder can step *)
+Lemma holder_progress c s t :
+  invA s -> drainMu s = Some t -> can_step c s.
+Proof.
+  intros HA E. pose proof HA as (HT & HDl & HMl).
+  pose proof (HDl t E) as Hlt.
+  destruct (nth_error (threads s) t) as [th|] eqn:Et; [|apply nth_error_None in Et; lia].
+  pose proof (HT _ _ Et) as [Hok Htok Hmu _ _]. pose proof (proj1 Htok E) as Hh.
+  destruct (always_enabled (pc th)) eqn:Hen.
+  { exists t, th. split; auto. split; [right; left; auto|].
+    apply (lstepc_enabled c s t th); auto. apply always_enabled_step; auto. }
+  assert (Hp : pc th = P312 \/ pc th = P332) by (destruct (pc th); cbn in Hh, Hen; try discriminate; auto).
+  destruct (mu s) as [m|] eqn:Em.
+  - pose proof (HMl m eq_refl) as Hlm.
+    destruct (nth_error (threads s) m) as [thm|] eqn:Etm; [|apply nth_error_None in Etm; lia].
+    pose proof (HT _ _ Etm) as [Hok' _ Hmu' _ _]. pose proof (proj1 Hmu' Em) as Hpm.
+    exists m, thm. split; auto. split; [right; right; left; auto|].
+    apply (lstepc_enabled c s m thm); auto. apply always_enabled_step; auto. rewrite Hpm. reflexivity.
+  - exists t, th. split; auto. split; [right; left; auto|].
+    apply (lstepc_enabled c s t th); auto. apply enabled_mu_free; auto.
+Qed.
+
+Lemma worker_progress c s tid th :
+  invA s -> thr s tid th -> cur th = Some OWorker -> closeCh s = false ->
+  (pc th = P301 -> wakeTok s = true) -> can_step c s.
+Proof.
+  intros HA Hth Hc Hcl H301. pose proof (proj1 HA _ _ Hth) as [Hok Htok _ _ _].
+  destruct (always_enabled (pc th)) eqn:Hen.
+  { exists tid, th. split; auto. split; [left; auto|].
+    apply (lstepc_enabled c s tid th); auto. apply always_enabled_step; auto. }
+  rewrite Hc in Hok.
+  destruct (pc th) eqn:Hp; cbn in Hok, Hen; try discriminate.
+  - exists tid, th. split; auto. split; [left; auto|].
+    apply (lstepc_enabled c s tid th); auto. apply enabled_301; auto.
+  - destruct (drainMu s) as [t|] eqn:E; [eapply holder_progress; eauto|].
+    exists tid, th. split; auto. split; [left; auto|].
+    apply (lstepc_enabled c s tid th); auto. apply enabled_311; auto.
+  - eapply holder_progress; eauto. apply Htok. reflexivity.
+Qed.
+
+Record inv4 (s : gstate) : Prop := { i4_A : invA s; i4_B : invB s; i4_D : invD s }.
+
+Lemma inv4_reachable f n B scripts s :
+  2 <= n -> 1 <= B -> wf_scripts scripts -> reachable (init_scripts f n B scripts) s -> inv4 s.
+Proof.
+  intros Hn HB Hwf H. induction H as [|s c tid s' o H IH Hs].
+  - split; [apply invA_init; auto | apply invB_init; auto | apply invD_init; auto].
+  - destruct IH as [HA HBB HD]. split;
+      [eapply invA_step; eauto | eapply invB_step; eauto | eapply invD_step; eauto].
+Qed.
+
+(* ---- 6. no_lost_wake ---- *)
+Theorem no_lost_wake f n B scripts s :
+  2 <= n -> 1 <= B -> wf_scripts scripts -> reachable (init_scripts f n B scripts) s ->
+  cseq (cell_at s (tail s)) = tail s + 1 -> drainMu s = None -> closeCh s = false ->
+  wakeTok s = true
+  \/ (exists tid th, thr s tid th /\ cur th = Some OWorker /\ wsetN (pc th) = true)
+  \/ (exists tid th, thr s tid th /\ pc th = P106 /\ epos th = tail s).
+Proof.
+  intros Hn HB Hwf H Hpub Hd Hcl. destruct (inv4_reachable _ _ _ _ _ Hn HB Hwf H) as [HA HBB HD].
+  pose proof (b_notok _ HBB Hd) as Ht.
+  assert (Hr : ready s) by (unfold ready; rewrite <- Ht; exact Hpub).
+  destruct (d_N _ HD Hr Hcl) as [X|[X|[X|(t & th & Hth & Hq)]]]; auto.
+  - right. right. rewrite Ht. exact X.
+  - exfalso. pose proof (proj1 HA _ _ Hth) as [_ Htok _ _ _].
+    assert (Hh : holder (pc th) = true) by (unfold QC in Hq; destruct (pc th); cbn in *; auto; discriminate).
+    apply Htok in Hh. congruence.
+Qed.
+
+(* the auxiliary fact behind it: wakeState = 1 means a token is pending or a worker is on its way
+   to clear it *)
+Theorem wake_state_sound f n B scripts s :
+  2 <= n -> 1 <= B -> wf_scripts scripts -> reachable (init_scripts f n B scripts) s ->
+  wakeState s = 1 -> closeCh s = false ->
+  wakeTok s = true \/ exists tid th, thr s tid th /\ cur th = Some OWorker /\ wsetW (pc th) = true.
+Proof.
+  intros Hn HB Hwf H. apply (d_W _ (i4_D _ (inv4_reachable _ _ _ _ _ Hn HB Hwf H))).
+Qed.
+
+(* ---- progress: a published command at the (effective) tail always has a responsible thread that
+   can step: the worker, the token holder (or the reader whose shard lock it waits for), or the
+   producer about to signal ---- *)
+Theorem progress f n B scripts s c :
+  2 <= n -> 1 <= B -> wf_scripts scripts -> reachable (init_scripts f n B scripts) s ->
+  ready s -> closeCh s = false -> (exists tid th, thr s tid th /\ cur th = Some OWorker) ->
+  can_step c s.
+Proof.
+  intros Hn HB Hwf H Hr Hcl (tw & thw & Hw & Hcw).
+  destruct (inv4_reachable _ _ _ _ _ Hn HB Hwf H) as [HA HBB HD].
+  destruct (d_N _ HD Hr Hcl) as [X|[(t & th & Hth & Hc & Hp)|[(t & th & Hth & Hp & He)|(t & th & Hth & Hq)]]].
+  - eapply worker_progress; eauto.
+  - eapply (worker_progress c s t th); eauto. intros E. rewrite E in Hp. discriminate.
+  - exists t, th. split; auto. split; [right; right; right; auto|].
+    apply (lstepc_enabled c s t th); auto. apply always_enabled_step.
+    + apply (a_cur _ _ _ (proj1 HA _ _ Hth)).
+    + rewrite Hp. reflexivity.
+  - pose proof (proj1 HA _ _ Hth) as [_ Htok _ _ _].
+    assert (Hh : holder (pc th) = true) by (unfold QC in Hq; destruct (pc th); cbn in *; auto; discriminate).
+    apply Htok in Hh. eapply holder_progress; eauto.
+Qed.
+
+(* the drain measure: each completed dequeue moves tail by one and leaves head alone *)
+Lemma drain_measure c s tid th s' o :
+  invB s -> thr s tid th -> pc th = P125 -> lstepc c s tid = Some (s', o) ->
+  tail s' = tail s + 1 /\ head s' = head s.
+Proof.
+  intros HB Hth Hpc Hs. apply lstepc_inv in Hs as (th0 & s1 & th1 & Hth0 & Hst & ->).
+  rewrite (thr_det _ _ _ _ Hth0 Hth) in *. unfold tstep in Hst. rewrite Hpc in Hst.
+  pose proof (b_thr _ HB _ _ Hth) as T.
+  assert (E1 : dpos th = gtail s) by (apply (t_dpos _ _ T); tauto).
+  assert (E2 : tail s = gtail s - 1) by (rewrite (t_tail _ _ T) by (rewrite Hpc; reflexivity); rewrite Hpc; lia).
+  destruct (Z.of_nat (length (dbuf th)) <? max_of s th); unfold park in Hst; inversion Hst; subst; cbn; lia.
+Qed.
+
+(* Set's wait at 333 (repaired syncMutate) is bounded: the cell the consumer is stuck on is
+   reserved by a producer between its head CAS and its publish, and that producer can always step *)
+Theorem set_wait_bounded f n B scripts s tid th :
+  2 <= n -> 1 <= B -> wf_scripts scripts -> reachable (init_scripts f n B scripts) s ->
+  thr s tid th -> pc th = P333 ->
+  tail s < starget th /\ starget th <= head s
+  /\ (published s (tail s)
+      \/ exists t' th', thr s t' th' /\ ownpc (pc th') = true /\ epos th' = tail s
+                        /\ forall c, lstepc c s t' <> None).
+Proof.
+  intros Hn HB Hwf H Hth Hpc. destruct (inv4_reachable _ _ _ _ _ Hn HB Hwf H) as [HA HBB HD].
+  pose proof (proj1 HA _ _ Hth) as [Hok _ _ _ _].
+  rewrite Hpc in Hok. destruct (cur th) as [[]|] eqn:Hc; cbn in Hok; try discriminate.
+  pose proof (d_333 _ HD _ _ Hth Hpc) as H1.
+  assert (H2 : starget th <= head s) by (eapply (d_tgt _ HD); eauto; rewrite Hpc; reflexivity).
+  assert (H3 : tail s = gtail s).
+  { rewrite (t_tail _ _ (b_thr _ HBB _ _ Hth)) by (rewrite Hpc; reflexivity). rewrite Hpc. lia. }
+  split; auto. split; auto. rewrite H3.
+  destruct (b_cells _ HBB (gtail s)) as [C1 _]; [pose proof (b_n _ HBB); lia|].
+  destruct C1 as [Hp|[_ (t' & th' & Ht' & Ho & He)]]; [lia|left; auto|].
+  right. exists t', th'. repeat split; auto. intros c.
+  apply (lstepc_enabled c s t' th'); auto. apply always_enabled_step.
+  - apply (a_cur _ _ _ (proj1 HA _ _ Ht')).
+  - destruct (pc th'); cbn in Ho; try discriminate; reflexivity.
+Qed.
+
+(* ================================================================ 5. sync_fence *)
+
+Lemma cack_cases cm a : In a (cack cm) -> cm = Barrier a \/ cm = ClearCmd a.
+Proof. destruct cm; cbn; intros H; [destruct H|destruct H as [H|[]]|destruct H as [H|[]]]; subst; auto. Qed.
+
+Theorem sync_fence f n B scripts s a :
+  2 <= n -> wf_scripts scripts -> reachable (init_scripts f n B scripts) s ->
+  In a (ackTok s) ->
+  exists k, (k < length (qlog s))%nat
+    /\ (nth k (resv s) (Write 0) = Barrier a \/ nth k (resv s) (Write 0) = ClearCmd a)
+    /\ forall j id, (j < k)%nat -> nth j (resv s) (Write 0) = Write id -> In id (applied s).
+Proof.
+  intros Hn Hwf H Ha.
+  destruct (exactly_once_fifo _ _ _ _ _ Hn Hwf H) as (Hpre & HM & _).
+  destruct (inv2_reachable _ _ _ _ _ Hn Hwf H) as [_ HC].
+  pose proof (c_ack _ HC _ Ha) as Hin. unfold cacks in Hin. apply in_flat_map in Hin as (cm & Hcm & Hac).
+  apply (In_nth _ _ (Write 0)) in Hcm as (k & Hk & Hnth).
+  exists k. split; auto. split.
+  - rewrite (nth_pre _ _ _ _ _ Hpre Hk), Hnth. apply cack_cases; auto.
+  - intros j id Hj Hr. destruct (Merge_incl _ _ _ HM) as [I1 _]. apply I1. apply wids_in.
+    rewrite <- Hr. rewrite (nth_pre _ _ _ _ _ Hpre) by lia. apply nth_In. lia.
+Qed.
+
+(* ================================================================ layer E: Close *)
+
+Lemma worker_flag_step c s tid th s1 th1 o :
+  tstep c s tid th = Some (s1, th1, o) -> thread_is_worker th1 = true -> thread_is_worker th = true.
+Proof.
+  unfold thread_is_worker. intros Hst.
+  unfold tstep in Hst.
+  destruct (pc th);
+    cbv beta iota zeta delta [start_op enq_ret cenqueue try_drain drain_start deq_retn deq_ret0 drain_ret
+                         finish_w finish park] in Hst;
+    repeat match type of Hst with
+           | context [match ?x with _ => _ end] => let E := fresh "E" in destruct x eqn:E
+           end; try discriminate Hst; inversion Hst; subst; clear Hst; cbn; auto;
+    rewrite ?E, ?E0, ?E1, ?E2; cbn; auto; rewrite ?orb_true_r, ?orb_false_r; auto.
+  all: intros X; rewrite X; reflexivity.
+Qed.
+
+Lemma existsb_nth_false {A} (f : A -> bool) l i x :
+  existsb f l = false -> nth_error l i = Some x -> f x = false.
+Proof.
+  revert i; induction l as [|y l IH]; intros [|i] H E; cbn in *; try discriminate.
+  - inversion E; subst. apply orb_false_iff in H. tauto.
+  - apply orb_false_iff in H. eapply IH; eauto. tauto.
+Qed.
+
+Lemma existsb_upd_false {A} (f : A -> bool) l i x :
+  existsb f l = false -> f x = false -> existsb f (upd l i x) = false.
+Proof.
+  revert i; induction l as [|y l IH]; intros [|i] H E; cbn in *; auto.
+  - apply orb_false_iff in H. rewrite E. tauto.
+  - apply orb_false_iff in H. destruct H as [-> H]. cbn. apply IH; auto.
+Qed.
+
+Lemma workers_done_keep s s' tid th th1 :
+  thr s tid th -> threads s' = upd (threads s) tid th1 ->
+  (thread_is_worker th1 = true -> thread_is_worker th = true) ->
+  workers_done s = true -> workers_done s' = true.
+Proof.
+  unfold workers_done. intros Hth Hthr Himp H. apply negb_true_iff in H. apply negb_true_iff.
+  rewrite Hthr. apply existsb_upd_false; auto.
+  pose proof (existsb_nth_false _ _ _ _ H Hth) as X.
+  destruct (thread_is_worker th1); auto. rewrite Himp in X; auto.
+Qed.
+
+Record invE (s : gstate) : Prop := {
+  e_once : forall tid th a, thr s tid th -> cur th = Some (OClose a) -> onceHeld s = Some tid;
+  e_343 : forall tid th, thr s tid th -> pc th = P343 -> workers_done s = true;
+  e_done : onceDone s = true -> workers_done s = true
+}.
+
+Lemma invE_init f n B scripts : invE (init_scripts f n B scripts).
+Proof.
+  constructor; cbn; try discriminate.
+  - intros tid th a H. unfold thr in H; cbn in H. apply nth_error_map_thread in H as (l & _ & ->). discriminate.
+  - intros tid th H. unfold thr in H; cbn in H. apply nth_error_map_thread in H as (l & _ & ->). discriminate.
+Qed.
+
+Lemma e_once_frame s s' tid th th1 :
+  invE s -> thr s tid th -> threads s' = upd (threads s) tid th1 ->
+  (forall t, t <> tid -> onceHeld s = Some t -> onceHeld s' = Some t) ->
+  (forall a, cur th1 = Some (OClose a) -> onceHeld s' = Some tid) ->
+  forall t th' a, thr s' t th' -> cur th' = Some (OClose a) -> onceHeld s' = Some t.
+Proof.
+  intros HE Hth Hthr Ho H1 t th' a H Hc. destruct (Nat.eq_dec t tid) as [->|N].
+  - rewrite (thr_upd_same _ _ _ _ _ _ Hthr Hth H) in *. eauto.
+  - apply (thr_upd_other s s' tid th1) in H; auto. apply Ho; auto. eapply (e_once _ HE); eauto.
+Qed.
+
+Lemma e_343_frame s s' tid th th1 :
+  invE s -> thr s tid th -> threads s' = upd (threads s) tid th1 ->
+  (workers_done s = true -> workers_done s' = true) ->
+  (pc th1 = P343 -> workers_done s' = true) ->
+  forall t th', thr s' t th' -> pc th' = P343 -> workers_done s' = true.
+Proof.
+  intros HE Hth Hthr Hw H1 t th' H Hp. destruct (Nat.eq_dec t tid) as [->|N].
+  - rewrite (thr_upd_same _ _ _ _ _ _ Hthr Hth H) in *. auto.
+  - apply (thr_upd_other s s' tid th1) in H; auto. apply Hw. eapply (e_343 _ HE); eauto.
+Qed.
+
+Lemma invE_step c s tid s' o : invA s -> invE s -> lstepc c s tid = Some (s', o) -> invE s'.
+Proof.
+  intros HA HE Hs. apply lstepc_inv in Hs as (th & s1 & th1 & Hth & Hst & ->).
+  pose proof (proj1 HA _ _ Hth) as [Hok _ _ _ Hwf].
+  pose proof (worker_flag_step _ _ _ _ _ _ _ Hst) as Hwk.
+  assert (Hkeep : workers_done s = true -> negb (existsb thread_is_worker (upd (threads s) tid th1)) = true).
+  { intros X. apply (workers_done_keep s (set_threads s (upd (threads s) tid th1)) tid th th1); auto. }
+  step_leaves Hst Hok.
+  all: norm_state.
+  all: try (match goal with E : script _ = _ :: _ |- _ => rewrite E in Hwf end).
+  all: try (cbn in Hwf; discriminate Hwf).
+  all: bool_hyps; zb; none_hyps.
+  all: constructor.
+  all: try (eapply (e_once_frame _ _ tid th); [exact HE|exact Hth|reflexivity| | ];
+            cbn [onceHeld cur];
+            [ first [ intros t Hn X; exact X
+                    | intros t Hn X; congruence
+                    | intros t Hn X; pose proof (e_once _ HE _ _ _ Hth Hcur); congruence ]
+            | rewrite ?Hcur; intros a X; first [discriminate X | reflexivity | exact (e_once _ HE _ _ _ Hth Hcur)] ]).
+  all: try (eapply (e_343_frame _ _ tid th); [exact HE|exact Hth|reflexivity
+            | intros X; unfold workers_done; cbn [threads]; apply Hkeep; first [exact X | reflexivity] | ];
+            cbn [pc]; intros X; first [discriminate X | unfold workers_done; cbn [threads]; apply Hkeep; first [assumption | reflexivity]]).
+  all: try (cbn [onceDone]; intros X;
+            first [ discriminate X
+                  | unfold workers_done; cbn [threads]; apply Hkeep; first [exact (e_done _ HE X) | reflexivity]
+                  | unfold workers_done; cbn [threads]; apply Hkeep; exact (e_343 _ HE _ _ Hth Hpc) ]).
+Qed.
+
+Lemma invAE_reachable f n B scripts s :
+  wf_scripts scripts -> reachable (init_scripts f n B scripts) s -> invA s /\ invE s.
+Proof.
+  intros Hwf H. induction H as [|s c tid s' o H IH Hs].
+  - split; [apply invA_init; auto | apply invE_init].
+  - destruct IH as [HA HE]. split; [eapply invA_step; eauto | eapply invE_step; eauto].
+Qed.
+
+(* ---- 8. close_releases ---- *)
+
+(* once closeCh is closed a producer parked at 108 can step: it retries (only if a space token is
+   pending and the select picks it) or returns ErrCacheClosed (Close's own flush barrier gives up
+   and goes on to 339) *)
+Theorem close_releases f n B scripts s c tid th :
+  wf_scripts scripts -> reachable (init_scripts f n B scripts) s ->
+  thr s tid th -> pc th = P108 -> closeCh s = true ->
+  exists s' o, lstepc c s tid = Some (s', o)
+    /\ ((o = [101; 0; 0] /\ spaceTok s = true /\ c = false)
+        \/ o = [0; 3; 0]
+        \/ (o = [339; 0; 0] /\ exists a, cur th = Some (OClose a))).
+Proof.
+  intros Hwf H Hth Hpc Hcl. destruct (invAE_reachable _ _ _ _ _ Hwf H) as [HA _].
+  pose proof (a_cur _ _ _ (proj1 HA _ _ Hth)) as Hok. rewrite Hpc in Hok.
+  unfold lstepc. rewrite Hth. unfold tstep. rewrite Hpc, Hcl.
+  destruct (cur th) as [[]|] eqn:Hc; cbn in Hok; try discriminate Hok;
+    destruct (spaceTok s), c; cbn;
+    unfold enq_ret, park, finish_w, finish; rewrite ?Hc; cbn; eauto 10.
+Qed.
+
+(* after Close has returned (the Once is done) every worker thread has exited *)
+Theorem close_waits_for_workers f n B scripts s :
+  wf_scripts scripts -> reachable (init_scripts f n B scripts) s ->
+  onceDone s = true -> workers_done s = true.
+Proof. intros Hwf H. apply (e_done _ (proj2 (invAE_reachable _ _ _ _ _ Hwf H))). Qed.
+
+(* sync.Once: at most one thread is inside Close; a second Close blocks while the first runs and
+   returns at once, touching nothing, after it finished *)
+Theorem close_exclusive f n B scripts s t1 t2 th1 th2 a1 a2 :
+  wf_scripts scripts -> reachable (init_scripts f n B scripts) s ->
+  thr s t1 th1 -> thr s t2 th2 -> cur th1 = Some (OClose a1) -> cur th2 = Some (OClose a2) -> t1 = t2.
+Proof.
+  intros Hwf H H1 H2 C1 C2. destruct (invAE_reachable _ _ _ _ _ Hwf H) as [_ HE].
+  pose proof (e_once _ HE _ _ _ H1 C1). pose proof (e_once _ HE _ _ _ H2 C2). congruence.
+Qed.
+
+Lemma close_blocks c s tid th a r t :
+  thr s tid th -> pc th = P0 -> cur th = None -> script th = OClose a :: r ->
+  onceDone s = false -> onceHeld s = Some t -> lstepc c s tid = None.
+Proof.
+  intros Hth Hpc Hc Hs Hd Ho. unfold lstepc. rewrite Hth. unfold tstep. rewrite Hpc, Hc, Hs.
+  unfold start_op. rewrite Hd, Ho. reflexivity.
+Qed.
+
+Lemma close_idempotent c s tid th a r :
+  thr s tid th -> pc th = P0 -> cur th = None -> script th = OClose a :: r -> onceDone s = true ->
+  lstepc c s tid
+  = Some (set_threads s (upd (threads s) tid (set_dbuf (set_pc (set_cur (set_cur (set_script th r) (Some (OClose a))) None) P0) [])),
+          [0; 0; 0]).
+Proof.
+  intros Hth Hpc Hc Hs Hd. unfold lstepc. rewrite Hth. unfold tstep. rewrite Hpc, Hc, Hs.
+  unfold start_op. rewrite Hd. reflexivity.
+Qed.
+
+(* ---- 7. lock_order ----
+   Blocking acquisitions are ordered drainMu then mu:
+   - a thread blocked on drainMu.Lock (311, 331) holds neither lock;
+   - a thread blocked on mu.Lock holds at most drainMu (312, 332), or nothing (343, 350);
+   - the only thread that ever holds mu across a park point is the reader at 351, whose next step
+     (the unlock) is always enabled, so it never waits for anything while holding mu;
+   - every other use of the two locks on the inline / helper paths is a TryLock that never blocks
+     (322, 323, the Get-miss helper and tryDrainShard at the end of an enqueue: all always enabled);
+   - a thread blocked on a channel (108 space/closeCh, 301 wake/closeCh, 340 ack/closeCh) or in
+     workers.Wait (341) holds neither drainMu nor mu; the Closer holds only the Once there. *)
+Definition blocks_on_drainMu (p : pcT) : bool := match p with P311 | P331 => true | _ => false end.
+Definition blocks_on_mu (p : pcT) : bool := match p with P312 | P332 | P343 | P350 => true | _ => false end.
+Definition blocks_on_chan (p : pcT) : bool := match p with P108 | P301 | P340 | P341 => true | _ => false end.
+
+Theorem lock_order f n B scripts s tid th :
+  wf_scripts scripts -> reachable (init_scripts f n B scripts) s -> thr s tid th ->
+  (blocks_on_drainMu (pc th) = true -> drainMu s <> Some tid /\ mu s <> Some tid)
+  /\ (blocks_on_mu (pc th) = true -> mu s <> Some tid /\ (drainMu s = Some tid <-> (pc th = P312 \/ pc th = P332)))
+  /\ (blocks_on_chan (pc th) = true -> drainMu s <> Some tid /\ mu s <> Some tid)
+  /\ (mu s = Some tid -> pc th = P351 /\ forall c, lstepc c s tid <> None)
+  /\ ((pc th = P322 \/ pc th = P323 \/ pc th = P106) -> forall c, lstepc c s tid <> None).
+Proof.
+  intros Hwf H Hth. destruct (invAE_reachable _ _ _ _ _ Hwf H) as [HA _].
+  pose proof (proj1 HA _ _ Hth) as [Hok Htok Hmu _ _].
+  assert (Hen : always_enabled (pc th) = true -> forall c, lstepc c s tid <> None).
+  { intros X c. apply (lstepc_enabled c s tid th); auto. apply always_enabled_step; auto. }
+  split; [|split; [|split; [|split]]].
+  - intros X. split; intros Y.
+    + apply Htok in Y. destruct (pc th); discriminate.
+    + apply Hmu in Y. rewrite Y in X. discriminate.
+  - intros X. split.
+    + intros Y. apply Hmu in Y. rewrite Y in X. discriminate.
+    + split.
+      * intros Y. apply Htok in Y. destruct (pc th); cbn in *; try discriminate; auto.
+      * intros [Y|Y]; apply Htok; rewrite Y; reflexivity.
+  - intros X. split; intros Y.
+    + apply Htok in Y. destruct (pc th); discriminate.
+    + apply Hmu in Y. rewrite Y in X. discriminate.
+  - intros Y. split; [apply Hmu; auto|]. apply Hen. apply Hmu in Y. rewrite Y. reflexivity.
+  - intros [X|[X|X]]; apply Hen; rewrite X; reflexivity.
+Qed.
+
+(* ================================================================ 9. non-vacuity examples *)
+
+Definition ex_scripts : list (list op) := [[OEnqueue 1; OEnqueue 2; OEnqueue 3]; [OEnqueue 4]; [OWorker]].
+
+(* ring of 2: producer 0 fills the ring, its third enqueue parks at 108 (step disabled), the worker
+   dequeues one command and signals space at 126, and the producer is released: it retries from 101
+   and laps the ring (position 2 reuses cell 0) without overwriting anything *)
+Definition ex_sched_backpressure : list nat :=
+  (repeat 0 7 ++ repeat 0 7 ++ [0;0;0;0] ++ repeat 2 12 ++ [0;0;0;0;0;0;0])%nat.
+
+Example backpressure_and_lap :
+  let r := run_sched_obs (init_scripts true 2 1 ex_scripts) ex_sched_backpressure in
+  snd r =
+    [[101;0;0];[102;0;0];[103;0;0];[104;0;0];[105;0;0];[106;0;0];[0;0;0];
+     [101;0;0];[102;0;0];[103;0;0];[104;0;0];[105;0;0];[106;0;0];[0;0;0];
+     [101;0;0];[102;0;0];[108;0;0];[-2];
+     [301;0;0];[302;0;0];[311;0;0];[121;0;0];[122;0;0];[123;0;0];[124;0;0];[125;0;0];[126;0;0];
+     [312;0;0];[313;0;0];[121;0;0];
+     [101;0;0];[102;0;0];[103;0;0];[104;0;0];[105;0;0];[106;0;0];[0;0;0]]
+  /\ head (fst r) = 3 /\ tail (fst r) = 1 /\ applied (fst r) = [1] /\ overwrote (fst r) = false.
+Proof. vm_compute. auto 10. Qed.
+
+(* the re-arm CAS: the worker finds position 2 unpublished and goes to 303; the producer publishes;
+   the worker clears wakeState (304), sees ready() (305), wins the re-arm CAS (302) and drains the
+   command, while the producer's own wake attempt at 106 finds wakeState = 1 and sends nothing *)
+Definition ex_sched_rearm : list nat :=
+  (repeat 0 7 ++ repeat 0 7 ++ [0;0;0;0] ++ repeat 2 12 ++ [0;0;0;0;0]
+   ++ repeat 2 9 ++ [2;2] ++ [0] ++ [2;2;2] ++ [0] ++ repeat 2 12)%nat.
+
+Example rearm_cas :
+  let r := run_sched_obs (init_scripts true 2 1 ex_scripts) ex_sched_rearm in
+  skipn 42 (snd r) =
+    [[121;0;0];[122;0;0];[303;0;0];[304;0;0];[106;0;0];[305;0;0];[302;0;0];[311;0;0];[0;0;0];
+     [121;0;0];[122;0;0];[123;0;0];[124;0;0];[125;0;0];[126;0;0];[312;0;0];[313;0;0];[121;0;0];
+     [122;0;0];[303;0;0];[304;0;0]]
+  /\ applied (fst r) = [1;2;3] /\ wakeTok (fst r) = false /\ head (fst r) = 3 /\ tail (fst r) = 3.
+Proof. vm_compute. auto 10. Qed.
